@@ -105,6 +105,9 @@ Definition enc_str (s : list byte) : option (list byte) :=
   match enc_size (N.of_nat (length s)) with Some h => Some (h ++ s) | None => None end.
 Definition take_n (n : N) (bs : list byte) : option (list byte * list byte) :=
   if n <=? N.of_nat (length bs) then Some (firstn (N.to_nat n) bs, skipn (N.to_nat n) bs) else None.
+(* the string decoder checks that `length` bytes remain before it reserves them *)
+Definition str_reservation (bs : list byte) : option N :=
+  match dec_size bs with DOk n r => if n <=? N.of_nat (length r) then Some n else Some 0 | DErr _ => None end.
 Definition dec_str (bs : list byte) : dres (list byte) :=
   dlet (n, r) <- dec_size bs ;;
   match take_n n r with
@@ -135,9 +138,10 @@ Section Collections.
     end.
   Definition dec_seq (bs : list byte) : dres (list A) :=
     dlet (n, r) <- dec_size bs ;; dec_items (S (length r)) n r.
-  (* what `try_reserve_exact(length)` is asked for, in elements *)
+  (* what `try_reserve_exact` is asked for, in elements: the announced count, capped by the bytes that remain
+     (every element takes at least one byte) *)
   Definition seq_reservation (bs : list byte) : option N :=
-    match dec_size bs with DOk n _ => Some n | DErr _ => None end.
+    match dec_size bs with DOk n r => Some (N.min n (N.of_nat (length r))) | DErr _ => None end.
 End Collections.
 
 Section Dict.
